@@ -117,6 +117,9 @@ func ruleJournalWrite(p *Prog, r *Report, rule string) {
 }
 
 func runC04(p *Prog, r *Report) {
+	if want("C04.35") {
+		ruleOptGetters(p, r, "C04.35", "durability switches", "WriteOptions.GetSync", "Options.GetNoSync")
+	}
 	if want("C04.34") {
 		// a torn manifest edit is skipped, not fatal
 		ruleTornEditIsCorruption(p, r, "C04.34")
